@@ -31,7 +31,7 @@ def cookie_inputs(F):
     cone = F.cone([GENERATE])
     ext = set(F.ext_calls(cone))
     badext = sorted(c for c in ext if re.search(CLOCKS, c) or re.search(NONDET, re.sub('^<', '', c)))
-    allowed_ext = r'siphasher::|std::hash::Hasher|std::io::Error::new|PartialEq|convert::(Into|TryInto|From)|Option::<T>::unwrap|Result::<T, E>::unwrap|std::net::Ipv[46]Addr'
+    allowed_ext = r'siphasher::|std::hash::Hasher|std::io::Error::new|PartialEq|convert::(Into|TryInto|TryFrom|From)|Option::<T>::unwrap|Result::<T, E>::unwrap|std::net::Ipv[46]Addr|ops::FromResidual<[^>]*>>*::from_residual|ops::Try>::branch'
     unknown = sorted(c for c in ext if not re.search(allowed_ext, c))
     chk(cone == {GENERATE} and not badext and not unknown, 'generate:cone', 'local cone %s; external callees outside the hashing/conversion set: %s' % (sorted(cone), unknown + badext), '%s:%d' % (g.file, g.line))
     statics_touched = [t['callee'] for _, t in g.calls(resolved_re=r'as std::ops::Deref>::deref$') if 'lazy' in str(t['resolved']).lower()]
@@ -54,7 +54,7 @@ def cookie_inputs(F):
             continue
         for i, s in enumerate(b['stmts']):
             rv = s['rv']
-            if rv['k'] == 'agg' and rv.get('adt') == 'std::result::Result' and rv.get('variant') == 'Ok':
+            if rv['k'] == 'agg' and rv.get('adt') == 'std::result::Result' and rv.get('variant') == 'Ok' and not s['lhs']['p'] and s['lhs']['l'] in returned_locals(g):
                 ok_rets.append((bi, g._through(g.rvalue(rv, (bi, i)), (bi, i), 0)))
     chk(len(ok_rets) == 1, 'generate:ok-sites', '%d Ok(..) construction sites' % len(ok_rets))
     writes = [(bi, t['name'], peel(g.argv(bi, 1), casts=True)) for bi, t in g.calls(r'Hasher::write_\w+$')]
